@@ -20,6 +20,8 @@ var lenSeps = []struct{ s, class string }{
 }
 var lenTails = []struct{ s, class string }{
 	{"x", "alpha"}, {"GET /cats", "alpha"}, {"200", "digit"}, {"@t", "at"}, {"TYPE @x", "alpha"}, {"Body\n{}", "alpha"},
+	// a one-byte foreign word followed by a line break, a blank, an annotation or a comment start
+	{"X\nmore", "alpha"}, {"x y", "alpha"}, {"a/b", "alpha"}, {"a#b", "alpha"}, {"Q\r\n", "alpha"}, {"7\n8", "digit"}, {"x//y\n", "alpha"}, {"x/*y*/", "alpha"},
 }
 
 func lastClassOfNode(n Node) string {
